@@ -974,3 +974,87 @@ Example accepted_query_example :
   eval_query (fun _ _ _ _ => false) [ex_tel "+12065551212"] (QCond PURN "tel" OpEq "+12065551212")
     <> eval_query (fun _ _ _ _ => false) [ex_tel "+14155559999"] (QCond PURN "tel" OpEq "+12065551212").
 Proof. vm_compute. repeat split; try reflexivity. discriminate. Qed.
+
+(* ------------------------------------------------------------------------------------------------ *)
+(* do the actions that look at the contact's URNs keep twin contacts twins?                           *)
+
+Lemma Forall2_app_twin : forall us vs us' vs', Forall2 urn_twin us vs -> Forall2 urn_twin us' vs' ->
+  Forall2 urn_twin (us ++ us') (vs ++ vs').
+Proof. intros. apply Forall2_app; assumption. Qed.
+
+(* add_contact_urn: twins stay twins when the candidate is held by both or by neither *)
+Lemma add_urn_twin : forall us vs u, Forall2 urn_twin us vs -> has_urn us u = has_urn vs u ->
+  Forall2 urn_twin (add_urn us u) (add_urn vs u).
+Proof.
+  intros us vs u H Hh. unfold add_urn. rewrite <- Hh. destruct (has_urn us u); [exact H|].
+  apply Forall2_app_twin; [exact H | constructor; [apply urn_twin_refl | constructor]].
+Qed.
+
+(* ... and not otherwise: the candidate equals the path of one twin only *)
+Definition set_contact_urns (s : session) (f : list urn -> list urn) : session :=
+  with_parts s (match s_contact s with Some c => Some (with_urns c (f (c_urns c))) | None => None end)
+             (s_input s) (s_parent s) (s_child s).
+
+Lemma add_urn_refuted_witness :
+  exists e s t u, redact e = true /\ session_twin s t /\
+    ~ Forall2 urn_twin (add_urn [ex_tel "+12065551212"] u) (add_urn [ex_tel "+12065553434"] u) /\
+    root_context e (set_contact_urns s (fun us => add_urn us u))
+      <> root_context e (set_contact_urns t (fun us => add_urn us u)).
+Proof.
+  exists ex_env, (ex_session ex_one_channel [ex_tel "+12065551212"]),
+         (ex_session ex_one_channel [ex_tel "+12065553434"]), (ex_tel "+12065551212").
+  split; [reflexivity|]. split.
+  - exists (Some (ex_contact [ex_tel "+12065553434"])), None, None, None.
+    repeat split; try constructor. exists [ex_tel "+12065553434"]. split; [|reflexivity].
+    constructor; [repeat split | constructor].
+  - split.
+    + vm_compute. intro H. inversion H as [|? ? ? ? _ T]; subst. inversion T.
+    + intro H.
+      apply (f_equal (fun v => lookup v [Key "contact"; Key "urns"; Idx 1])) in H.
+      vm_compute in H. discriminate H.
+Qed.
+
+(* set_contact_channel: twins stay twins, always (the loop looks at scheme and affinity only) *)
+Lemma prefer_step_twin : forall c u v, urn_twin u v -> urn_twin (prefer_step c u) (prefer_step c v).
+Proof.
+  intros c u v (Hs & Ha & Hc). unfold prefer_step. rewrite <- Hs.
+  destruct (String.eqb (u_scheme u) tel && supports c tel); cbn [set_affinity u_scheme u_affinity].
+  - rewrite <- Hs. destruct (String.eqb (ch_uuid c) "" && supports c (u_scheme u));
+      repeat split; cbn; assumption || reflexivity.
+  - rewrite <- Hs, <- Ha. destruct (String.eqb (u_affinity u) "" && supports c (u_scheme u));
+      repeat split; cbn; assumption || reflexivity.
+Qed.
+
+Lemma Forall2_filter_twin : forall (p : urn -> bool) us vs,
+  (forall u v, urn_twin u v -> p u = p v) -> Forall2 urn_twin us vs ->
+  Forall2 urn_twin (filter p us) (filter p vs).
+Proof.
+  intros p us vs Hp H. induction H as [|u v us vs Huv _ IH]; cbn [filter]; [constructor|].
+  rewrite <- (Hp u v Huv). destruct (p u); [constructor; assumption | exact IH].
+Qed.
+
+Lemma Forall2_map_twin : forall (f : urn -> urn) us vs,
+  (forall u v, urn_twin u v -> urn_twin (f u) (f v)) -> Forall2 urn_twin us vs ->
+  Forall2 urn_twin (map f us) (map f vs).
+Proof.
+  intros f us vs Hf H. induction H as [|u v us vs Huv _ IH]; cbn [map]; constructor; [apply Hf; assumption | exact IH].
+Qed.
+
+Lemma update_preferred_channel_twin : forall ch us vs, Forall2 urn_twin us vs ->
+  Forall2 urn_twin (update_preferred_channel ch us) (update_preferred_channel ch vs).
+Proof.
+  intros ch us vs H. unfold update_preferred_channel. destruct ch as [c|].
+  - destruct (negb (has_role c role_send)); [exact H|].
+    pose proof (Forall2_map_twin (prefer_step c) us vs (prefer_step_twin c) H) as M.
+    apply Forall2_app_twin; apply Forall2_filter_twin; try exact M.
+    + intros u v (_ & Ha & _). rewrite Ha. reflexivity.
+    + intros u v (_ & Ha & _). rewrite Ha. reflexivity.
+  - apply Forall2_map_twin; [|exact H]. intros u v (Hs & _ & Hc). repeat split; cbn; assumption.
+Qed.
+
+(* the hypothesis of add_urn_twin is satisfiable both ways *)
+Example add_urn_twin_example :
+  has_urn [ex_tel "+12065551212"] (ex_tel "+12065550000") = has_urn [ex_tel "+12065553434"] (ex_tel "+12065550000") /\
+  List.length (add_urn [ex_tel "+12065551212"] (ex_tel "+12065550000")) = 2%nat /\
+  add_urn [ex_tel "+12065551212"] (ex_tel "+12065551212") = [ex_tel "+12065551212"].
+Proof. vm_compute. repeat split; reflexivity. Qed.
